@@ -189,14 +189,23 @@ func parallelCommitPreload(cfg Config, pc *PCase, st *CaseStats) error {
 			case 1:
 				e.L.FailAt = map[int]bool{e.L.Writes + 1 + int(dirty)/2: true}
 			case 2:
-				// make one dirty slab unencodable: a root array gets an element whose encoder fails
+				// make one dirty slab unencodable: a root array (even worker counts: a root map) gets an element
+				// whose encoder fails after other elements of the same slab were encoded
 				for _, r := range e.Roots {
-					if !r.IsMap {
-						if err := e.acquire(r); err != nil {
-							return err
-						}
+					if err := e.acquire(r); err != nil {
+						return err
+					}
+					if !r.IsMap && w%2 == 1 {
 						if err := r.HA.Append(FailEnc{}); err != nil {
 							return fmt.Errorf("Append failed: %v", err)
+						}
+						break
+					}
+					if r.IsMap && r.Dig == nil && w%2 == 0 {
+						for k := uint64(0); k < 4; k++ { // several keys: at least one is not the first of its slab
+							if _, err := r.HM.Set(e.CB.Compare, e.CB.HashInput, U64(5550000+k), FailEnc{}); err != nil {
+								return fmt.Errorf("Set failed: %v", err)
+							}
 						}
 						break
 					}
@@ -262,13 +271,32 @@ func parallelCommitPreload(cfg Config, pc *PCase, st *CaseStats) error {
 			}
 			st.Add("parallel_commits", 1)
 		}
-		// preload with w workers == preload with 1 worker
+		// preload with w workers (in two batches, on a storage that already has something cached) ==
+		// preload on one goroutine (identifier by identifier: the sequential path)
 		s1, sw := NewStorage(ref.L), NewStorage(ref.L)
 		keys := ref.L.Keys()
-		if err := s1.BatchPreload(keys, 1); err != nil {
-			return fmt.Errorf("preload with 1 worker failed: %v", err)
+		if _, _, err := sw.Retrieve(keys[len(keys)-1]); err != nil {
+			return fmt.Errorf("Retrieve failed: %v", err)
 		}
-		if err := sw.BatchPreload(keys, w); err != nil {
+		if _, _, err := s1.Retrieve(keys[len(keys)-1]); err != nil {
+			return fmt.Errorf("Retrieve failed: %v", err)
+		}
+		for _, id := range keys {
+			if err := s1.BatchPreload([]atree.SlabID{id}, 1); err != nil {
+				return fmt.Errorf("preload with 1 worker failed: %v", err)
+			}
+		}
+		cut := len(keys) / 3
+		if cut < 12 && len(keys) > 12 {
+			cut = 12
+		}
+		if cut > len(keys) {
+			cut = len(keys)
+		}
+		if err := sw.BatchPreload(keys[:cut], w); err != nil {
+			return fmt.Errorf("preload with %d workers failed: %v", w, err)
+		}
+		if err := sw.BatchPreload(keys[cut:], w); err != nil {
 			return fmt.Errorf("preload with %d workers failed: %v", w, err)
 		}
 		for _, id := range keys {
